@@ -59,6 +59,9 @@ type realm struct {
 
 	// Used by close() to wait for sessions to exit.
 	waitHandlers sync.WaitGroup
+	// Sessions ended by realm shutdown. They are not removed from dealer and
+	// broker, so close() closes their peers after dealer and broker stopped.
+	closeOnStop []*wamp.Session
 
 	// Session meta-procedure registration ID -> handler map.
 	metaProcMap map[wamp.ID]func(*wamp.Invocation) wamp.Message
@@ -218,6 +221,13 @@ func (r *realm) close() {
 	r.dealer.close()
 	r.broker.close()
 
+	// Nothing can be routed to the sessions ended by this shutdown any more,
+	// so now it is safe to close their peers.
+	for _, sess := range r.closeOnStop {
+		sess.Close()
+	}
+	r.closeOnStop = nil
+
 	// Finally close realm's action channel.
 	close(r.actionChan)
 	<-r.stopped
@@ -347,6 +357,11 @@ func (r *realm) onLeave(sess *wamp.Session, shutdown, killAll bool) {
 		if !shutdown {
 			r.dealer.removeSession(sess)
 			r.broker.removeSession(sess)
+		} else {
+			// The session stays known to dealer and broker, which may still
+			// route messages of other sessions to it, so its peer must stay
+			// open until they have stopped.
+			r.closeOnStop = append(r.closeOnStop, sess)
 		}
 		close(sync)
 	}
@@ -418,7 +433,9 @@ func (r *realm) handleSession(sess *wamp.Session) error {
 			}
 		}
 		r.onLeave(sess, shutdown, killAll)
-		sess.Close()
+		if !shutdown {
+			sess.Close()
+		}
 		r.waitHandlers.Done()
 	}()
 
